@@ -80,6 +80,9 @@ func newEngine(ld *Loader, cfg RunConfig, stats *SolverStats) *Engine {
 	e.trackFns = map[string]bool{}
 	e.debug = cfg.Debug
 	e.ttCache = map[int32]byteSet{}
+	e.varsMemo = map[int32][]int32{}
+	e.ufIDs = map[string]int32{}
+	e.qcache = map[string]cachedQuery{}
 	e.noByteDom = cfg.NoByteDom
 	e.xcheck = cfg.XCheck
 	e.errorStringT = types_NewPointer(ld.lookupType("errors", "errorString"))
@@ -129,6 +132,8 @@ func (e *Engine) initProgram() (err error) {
 	e.varCount = map[string]int{}
 	e.dom = map[int32]byteSet{}
 	e.entangled = map[int32]bool{}
+	e.ufParent = map[int32]int32{}
+	e.multiConj = map[int32][]*Term{}
 	e.setModel(Model{})
 	e.resetSched()
 	e.inInit = true
